@@ -101,18 +101,25 @@ def pn_variables(pn):
     return sorted(extract_variable_names(pn))
 
 
-def make_free_input_sd(case):
+def raw_free_input_network(case):
     """same dynamics, but identity inputs written as function-less variables (.aeon)"""
-    from biobalm import SuccessionDiagram
     from biodivine_aeon import BooleanNetwork
 
-    bn = BooleanNetwork.from_bnet(case["bnet"])
+    # regulations that the functions really have (AEON refuses to build a symbolic graph for a network with inputs
+    # whose declared regulations are not essential)
+    bn = BooleanNetwork.from_bnet(case["bnet"]).infer_valid_graph()
     for v in bn.variable_names():
         f = bn.get_update_function(v)
         if f is not None and str(f) == v:
             bn.set_update_function(v, None)
             bn.remove_regulation(v, v)
-    return SuccessionDiagram(bn)
+    return bn
+
+
+def make_free_input_sd(case):
+    from biobalm import SuccessionDiagram
+
+    return SuccessionDiagram(raw_free_input_network(case))
 
 
 def run_model_case(case):
@@ -264,10 +271,15 @@ def run_case(case):
         T = ni.unsp(traps[case["trap_pick"] % len(traps)])
         P = percolate_space(sd.symbolic, T)
         rc = case["remove_constants"]
-        if case["trap_pick"] % 2 == 0:
-            pbn = percolate_network(sd.network, T, sd.symbolic, remove_constants=rc)
+        src = sd.network
+        if case.get("free_inputs") and case["trap_pick"] % 3 != 0:
+            # the *raw* network (inputs without any update function, as an .aeon / .sbml file gives it), not the one the
+            # diagram normalised: percolate_network is a public function of its own
+            src = raw_free_input_network(case)
+        if case["trap_pick"] % 2 == 0 and src is sd.network:
+            pbn = percolate_network(src, T, sd.symbolic, remove_constants=rc)
         else:
-            pbn = percolate_network(sd.network, T, remove_constants=rc)     # graph built by the function itself
+            pbn = percolate_network(src, T, remove_constants=rc)     # graph built by the function itself
         pni = common.NetInfo(pbn)
         free = [v for v in ni.names if v not in P]
         if rc and sorted(pni.names) != sorted(free):
